@@ -91,3 +91,6 @@ func (t *Tree) VerifWalk() VerifTreeWalk {
 	}
 	return w
 }
+
+// VerifRootKeys returns the number of keys of the root node (page 1).
+func (t *Tree) VerifRootKeys() int { return t.node(1).numKeys() }
